@@ -11,6 +11,8 @@ LEVEL = "fault_enumeration"
 RULE = (
     "generated programs (DAG, gated, cyclic loop templates, nested groups, nested loops) x random configurations (bind "
     "subset, graph-level select, with_entrypoint on 1-2 nodes, run-time select), 25% derived from objects already used; "
+    "nested groups also with a name bound inside that a sibling consumes, and with wrapper inputs renamed so that the "
+    "external name of an unbound inner parameter equals the inner name of a bound one (random and directed cases); "
     "for each configuration: sufficiency - exactly the reported required inputs (plus, per listed entry point in turn, "
     "its parameters) must be accepted, must not die of a missing value and (gate-free, no entry points) must produce "
     "the selected outputs; necessity - EVERY single required input omitted in turn (enumerated, both runners) must "
@@ -223,6 +225,27 @@ def check_config(ctx, spec, rsel, label):
     return bool(req or entry)
 
 
+def directed_cases():
+    """Small hand-shaped configurations at the corners the random generator reaches rarely."""
+
+    def inner(bind):
+        return {"name": "inner", "nodes": [{"k": "fn", "name": "combine", "params": [{"n": "cfg"}, {"n": "data"}], "outs": ["answer"]}], "bind": dict(bind)}
+
+    probe = {"k": "fn", "name": "probe", "params": [{"n": "tag"}], "outs": ["seen"]}
+    out = []
+    # external name of the unbound inner parameter == inner name of the bound one
+    for lab, batches in (("swap", [{"cfg": "data", "data": "cfg"}]), ("sequential", [{"cfg": "settings"}, {"data": "cfg"}, {"settings": "data"}])):
+        sub = {"k": "sub", "name": "inner", "prog": inner({"cfg": "bound:CFG"}), "rename_in": batches}
+        out.append((f"directed:rename-collides-with-inner-bound:{lab}", {"name": "outer", "nodes": [copy.deepcopy(probe), sub], "bind": {}}, None))
+    # a name bound inside a nested graph and consumed, default-less, by a sibling: narrowing the scope to the
+    # sibling (select / entry point) leaves nothing that could supply it
+    plain = {"k": "fn", "name": "plain", "params": [{"n": "cfg"}], "outs": ["o1"]}
+    for lab, extra in (("select", {"select": ["o1"]}), ("entry", {"entry": ["plain"]}), ("select+entry", {"select": ["o1"], "entry": ["plain"]})):
+        sub = {"k": "sub", "name": "inner", "prog": inner({"cfg": "bound:CFG"})}
+        out.append((f"directed:shared-name-bound-in-out-of-scope-subgraph:{lab}", {"name": "outer", "nodes": [copy.deepcopy(plain), sub], "bind": {}, **extra}, None))
+    return out
+
+
 def run(ctx):
     n = 350 if ctx.tier == "quick" else 1500
     core.WARM_P = 0.0  # warm-up is done explicitly per configuration
@@ -236,6 +259,9 @@ def run(ctx):
     t = loops.nested_loop(3, 0, 2, "route", 1)
     nt = check_config(ctx, t["spec"], None, "nested-loop(L=2)")
     ctx.case({"directed": "nested-loop-L2"}, bool(nt))
+    for label, spec, rsel in directed_cases():
+        nt = check_config(ctx, spec, rsel, label)
+        ctx.case({"directed": label}, bool(nt))
     for i in range(n):
         rng = ctx.rng
         r = rng.random()
@@ -258,6 +284,30 @@ def run(ctx):
                 if shared:
                     sub["prog"].setdefault("bind", {})[rng.choice(shared)] = "bound:inner-shared"
                     label = "nested-shared-bind"
+            elif res:
+                # the wrapper's inputs are renamed so that the external name of an unbound, default-less inner
+                # parameter q coincides with the INNER name of a different parameter p that is bound inside
+                sub = next(ns for ns in base["nodes"] if ns["k"] == "sub")
+                prog = sub["prog"]
+                inner_out = {e for x in prog["nodes"] for _, e in ref.node_outputs(x)}
+                free = []
+                for x in prog["nodes"]:
+                    for fp, ep in ref.node_inputs(x):
+                        if ep not in inner_out and ep not in free and ep not in (prog.get("bind") or {}) and not any(ref.has_fallback(x2, f2) for x2 in prog["nodes"] for f2, e2 in ref.node_inputs(x2) if e2 == ep):
+                            free.append(ep)
+                ext = dict(ref.node_inputs(sub))
+                outer_out = {e for x in base["nodes"] for _, e in ref.node_outputs(x)}
+                free = [f for f in free if f in ext and ext[f] not in outer_out]  # plain graph inputs only (no accidental cycles)
+                if len(free) >= 2:
+                    pq = rng.sample(free, 2)
+                    prog.setdefault("bind", {})[pq[0]] = "bound:inner-p"
+                    ep_, eq_ = ext[pq[0]], ext[pq[1]]
+                    if rng.random() < 0.6:
+                        batches = [{ep_: eq_, eq_: ep_}]
+                    else:
+                        batches = [{ep_: "tmp_swap"}, {eq_: ep_}, {"tmp_swap": eq_}]
+                    sub["rename_in"] = list(sub.get("rename_in") or []) + batches
+                    label = "nested-rename-collides-with-inner-bound"
         else:
             t = loops.gen_loop(rng)
             base, label = t["spec"], ("nested-loop" if t["template"].startswith("nested") else "loop:" + t["template"])
